@@ -156,21 +156,11 @@ func ruleDrain(c *Ctx, a *tcpAnchors) {
 		}
 	}
 	c.Floor("DRAIN", "address-read calls in the handler", n, 1)
-	// (3) client->target copy error in the relay goroutine: io.Copy(target, client) failure edge must drain the client before CloseRead/CloseWrite
+	// (3) client->target copy error: the copy whose source is the authenticated client connection (result 1 of the authenticator),
+	// wherever it lives; its failure edge must drain that source before any direction is closed
 	m := 0
 	for _, f := range p.FnsIn("service") {
-		if f.Parent() == nil {
-			continue
-		}
-		isGoTarget := false
-		for _, g := range p.GoSites() {
-			for _, t := range g.Targets {
-				if t == f {
-					isGoTarget = true
-				}
-			}
-		}
-		if !isGoTarget {
+		if p.IsTestSupport(f) {
 			continue
 		}
 		for _, cl := range eng.Calls(f) {
@@ -178,13 +168,16 @@ func ruleDrain(c *Ctx, a *tcpAnchors) {
 			if !ok || eng.CalleeName(&call.Call) != "io.Copy" || isDiscard(call.Call.Args[0]) {
 				continue
 			}
-			m++
 			src := call.Call.Args[1]
+			if !p.AnyFrom(src, deepF, func(v ssa.Value) bool { return eng.ResultOf(v, a.authCall, 1) }) {
+				continue
+			}
+			m++
 			srcO := p.Origins(src, eng.Plain)
 			isSrc := func(v ssa.Value) bool {
 				for _, o := range p.Origins(v, eng.Plain) {
-					for _, s := range srcO {
-						if o == s {
+					for _, s2 := range srcO {
+						if o == s2 || baseRoot(o) == baseRoot(s2) {
 							return true
 						}
 					}
@@ -203,7 +196,7 @@ func ruleDrain(c *Ctx, a *tcpAnchors) {
 			}
 		}
 	}
-	c.Floor("DRAIN", "client-to-target copies in relay goroutines", m, 1)
+	c.Floor("DRAIN", "client-to-target relay copies", m, 1)
 }
 
 // C06.DEADLINE
@@ -212,8 +205,33 @@ func ruleDeadline(c *Ctx, a *tcpAnchors) {
 	h := a.handler
 	both := eng.Union(a.succ, a.fail)
 	pre := eng.ReachBlocks(h.Blocks[0], both)
+	isAuth := map[*ssa.Function]bool{}
+	for _, f := range a.auths {
+		isAuth[f] = true
+	}
+	reg := c.NewRegion(h, 3, func(f *ssa.Function) bool { return eng.PkgPathOf(f) != eng.Mod+"/service" || isAuth[f] })
+	gAuth := c.CallGuard(func(call *ssa.Call) (int, bool) { return 2, call == a.authCall })
+	// isPre: the instruction runs before the authentication result is known (in the handler's pre-auth blocks, or in a helper
+	// all of whose call chains start there)
+	var isPre func(ins ssa.Instruction, d int) bool
+	isPre = func(ins ssa.Instruction, d int) bool {
+		f := ins.Parent()
+		if f == h {
+			return pre[ins.Block()]
+		}
+		sites := reg.sitesOf[f]
+		if len(sites) == 0 || d > 4 {
+			return false
+		}
+		for _, s := range sites {
+			if !isPre(s, d+1) {
+				return false
+			}
+		}
+		return true
+	}
 	n := 0
-	for _, cl := range eng.Calls(h) {
+	for _, cl := range reg.Calls() {
 		call, ok := cl.(*ssa.Call)
 		if !ok {
 			continue
@@ -224,10 +242,9 @@ func ruleDeadline(c *Ctx, a *tcpAnchors) {
 		}
 		arg := eng.Arg(&call.Call, 0)
 		zero := eng.IsZeroValue(p.Resolve(arg)) || isZeroStructLoad(p, arg)
-		if pre[call.Block()] {
+		if isPre(call, 0) {
 			n++
-			// value derives only from time.Now(), the handler's timeout field, the context deadline
-			ok2, bad := p.AllFrom(arg, eng.OriginOpts{ThroughConvert: true, ThroughCalls: func(cc *ssa.Call) []ssa.Value {
+			ok2, bad := p.AllFrom(arg, eng.OriginOpts{ThroughConvert: true, Interproc: true, ThroughCalls: func(cc *ssa.Call) []ssa.Value {
 				switch eng.CalleeName(&cc.Call) {
 				case "(time.Time).Add":
 					return cc.Call.Args
@@ -244,35 +261,26 @@ func ruleDeadline(c *Ctx, a *tcpAnchors) {
 				_, isC := v.(*ssa.Const)
 				return isC
 			})
-			c.CheckAt("DEADLINE", short(h)+":pre-auth-deadline-independent-of-client:"+m, call, ok2 && !zero, "the handshake deadline depends on something other than time.Now(), the handler's timeout and the context deadline (or is cleared before authentication): "+valsStr(p, bad))
+			c.CheckAt("DEADLINE", short(call.Parent())+":pre-auth-deadline-independent-of-client:"+m, call, ok2 && !zero, "the handshake deadline depends on something other than time.Now(), the handler's timeout and the context deadline (or is cleared before authentication): "+valsStr(p, bad))
 			continue
 		}
 		if zero {
-			c.CheckAt("DEADLINE", short(h)+":deadline-cleared-only-after-auth", call, eng.Cut(h, call.Block(), a.succ), "the read deadline is cleared on a path that has not authenticated: an unauthenticated connection is kept open past the timeout")
+			c.CheckAt("DEADLINE", short(call.Parent())+":deadline-cleared-only-after-auth", call, reg.CutDeep(call, gAuth), "the read deadline is cleared on a path that has not authenticated: an unauthenticated connection is kept open past the timeout")
 		}
 	}
 	c.Floor("DEADLINE", "deadline calls before authentication", n, 1)
-	// no deadline call on the failure path (handler side and drain helper)
-	for _, e := range sortedEdges(a.fail) {
-		bad := eng.ReachableInstrs(edgePoint(e), func(ins ssa.Instruction) bool {
-			cl, ok := ins.(*ssa.Call)
-			if !ok {
-				return false
-			}
-			if strings.HasSuffix(eng.MethodName(&cl.Call), "Deadline") && eng.MethodName(&cl.Call) != "Deadline" {
-				return true
-			}
-			for _, f := range repoCallees(c, cl) {
-				memo := map[*ssa.Function]int{}
-				if reaches(c, f, func(x ssa.Instruction) bool {
-					c2, ok := x.(*ssa.Call)
-					return ok && strings.HasPrefix(eng.MethodName(&c2.Call), "Set") && strings.HasSuffix(eng.MethodName(&c2.Call), "Deadline")
-				}, memo) {
-					return true
-				}
-			}
+	// no deadline call on the failure path (handler side and drain helpers)
+	isSetDeadline := func(ins ssa.Instruction) bool {
+		cl, ok := ins.(*ssa.Call)
+		if !ok {
 			return false
-		}, nil)
+		}
+		m := eng.MethodName(&cl.Call)
+		return strings.HasPrefix(m, "Set") && strings.HasSuffix(m, "Deadline")
+	}
+	may := liftMay(c, isSetDeadline)
+	for _, e := range sortedEdges(a.fail) {
+		bad := eng.ReachableInstrs(edgePoint(e), may, nil)
 		c.Check("DEADLINE", short(h)+":no-deadline-change-on-failure-path", blockPos(p, e.To), len(bad) == 0, "the failure path changes a deadline: the time at which a probe is closed would depend on its content")
 	}
 }
